@@ -532,6 +532,13 @@ func TestC17(t *testing.T) {
 			c := decl[k]
 			if op == "cmp-undeclared" {
 				c = "not-declared"
+				hasEmpty := false
+				for _, v := range decl {
+					hasEmpty = hasEmpty || v == ""
+				}
+				if !hasEmpty && rapid.IntRange(0, 2).Draw(t, "emptyconst") == 0 {
+					c = "" // the empty string is a constant like any other: undeclared unless the list has it
+				}
 			}
 			inv := rapid.IntRange(0, 3).Draw(t, "inv") == 0
 			opDesc = fmt.Sprintf("filter e %s %q inverse=%v", comp, c, inv)
@@ -699,6 +706,37 @@ func TestC17(t *testing.T) {
 			}
 			if msg := checkSorted(tab, got, []hx.Order{o}); msg != "" {
 				t.Fatalf("sort on the enum column violates the declared order: %s\n%s", msg, full())
+			}
+			// a sorted frame whose key column is then overwritten by another enum column of the same declared list, sorted
+			// again by the same order: the new values decide, in declared order
+			if via == "direct" && n >= 2 && rapid.IntRange(0, 2).Draw(t, "resortenum") == 0 {
+				shift := rapid.IntRange(1, n-1).Draw(t, "resortshift")
+				other := make([]*string, n)
+				for r := range other {
+					other[r] = data[(r+shift)%n]
+				}
+				two := qframe.New(map[string]interface{}{"e": data, "f": other, "id": hx.Iota(n)}, newqf.Enums(map[string][]string{"e": enumConf, "f": enumConf}))
+				ro := hx.BuildOrders([]hx.Order{o})
+				changed := two.Sort(ro...).Copy("e", "f")
+				again := changed.Sort(ro...)
+				if two.Err != nil || again.Err != nil {
+					t.Fatalf("sort, overwrite the key, sort again: %v %v\n%s", two.Err, again.Err, full())
+				}
+				cobs, err1 := hx.Observe(changed)
+				aobs, err2 := hx.Observe(again)
+				if err1 != nil || err2 != nil {
+					t.Fatal(err1, err2)
+				}
+				for _, tb := range []*hx.Table{&cobs, &aobs} {
+					for i := range tb.Cols {
+						if tb.Cols[i].Kind == hx.KEnum {
+							tb.Cols[i].Enum = enumConf
+						}
+					}
+				}
+				if msg := checkSorted(cobs, aobs, []hx.Order{o}); msg != "" {
+					t.Fatalf("sorted, key column overwritten by Copy(e, f), sorted again by the same order: %s\n%s", msg, full())
+				}
 			}
 			// the view's Slice() tells the same as its ItemAt
 			if ev, err := res.EnumView("e"); err == nil {
